@@ -46,7 +46,13 @@ func (g *gen) genDocs(n int) error {
 		return err
 	}
 	strs := []string{"", "a", "a\x00b", "héllo wörld", "日本語", "\u0000", "quote\"back\\slash", "line\nbreak"}
-	ints := []float64{0, 1, -1, 255, 1 << 31, -(1 << 31), 1 << 52, -(1 << 52), 9007199254740991, -9007199254740991}
+	// INTEGER fields arrive as float64: boundaries of the exactly-representable range (2^53) and of int64
+	// (2^63 is NOT an int64; 2^63-1024 is the largest float64 below it; -2^63 is an int64, the next
+	// float64 below it is not). A value is either rejected or stored: never stored as another number.
+	ints := []float64{0, 1, -1, 255, 1 << 31, -(1 << 31), 1 << 52, -(1 << 52), 9007199254740991, -9007199254740991,
+		9007199254740992, 9007199254740994, -9007199254740992, -9007199254740994,
+		9223372036854775808.0, math.Nextafter(9223372036854775808.0, 0), -9223372036854775808.0,
+		math.Nextafter(-9223372036854775808.0, math.Inf(-1)), 4611686018427387904.0, -4611686018427387904.0, 1e19, -1e19}
 	dbls := []float64{0, math.Copysign(0, -1), 1.5, -1.5, math.SmallestNonzeroFloat64, math.MaxFloat64, -math.MaxFloat64, 1e-300, 0.1}
 	inserted := map[string]*structpb.Struct{}
 	for k := 0; k < n; k++ {
@@ -54,7 +60,9 @@ func (g *gen) genDocs(n int) error {
 		if rng.Intn(5) > 0 {
 			f["s"] = structpb.NewStringValue(strs[rng.Intn(len(strs))])
 		}
-		if rng.Intn(5) > 0 {
+		if k < 2*len(ints) { // every boundary at least twice, then random picks
+			f["n"] = structpb.NewNumberValue(ints[k%len(ints)])
+		} else if rng.Intn(5) > 0 {
 			f["n"] = structpb.NewNumberValue(ints[rng.Intn(len(ints))])
 		}
 		if rng.Intn(5) > 0 {
@@ -83,7 +91,6 @@ func (g *gen) genDocs(n int) error {
 	if err != nil {
 		return err
 	}
-	defer rd.Close()
 	seen := 0
 	for {
 		d, err := rd.Read(ctx)
@@ -102,8 +109,70 @@ func (g *gen) genDocs(n int) error {
 			g.finding("other", fmt.Sprintf("document round trip: inserted %v read back %v", want, got))
 		}
 	}
+	rd.Close()
 	if seen != len(inserted) {
 		g.finding("other", fmt.Sprintf("document round trip: %d documents inserted, %d read back", len(inserted), seen))
+	}
+	// the INDEXED copy of the INTEGER field must be the number the document holds: comparisons on the
+	// field select exactly the stored documents whose payload value satisfies them
+	ops := []struct {
+		op   protomodel.ComparisonOperator
+		name string
+		ok   func(x, t float64) bool
+	}{
+		{protomodel.ComparisonOperator_GT, ">", func(x, t float64) bool { return x > t }},
+		{protomodel.ComparisonOperator_LT, "<", func(x, t float64) bool { return x < t }},
+		{protomodel.ComparisonOperator_EQ, "=", func(x, t float64) bool { return x == t }},
+	}
+	for _, t := range []float64{0, 1 << 52, -(1 << 52), 4611686018427387904.0, -4611686018427387904.0, -9223372036854775808.0,
+		math.Nextafter(9223372036854775808.0, 0)} {
+		for _, o := range ops {
+			want := map[string]bool{}
+			for id, d := range inserted {
+				if v, has := d.Fields["n"]; has && o.ok(v.GetNumberValue(), t) {
+					want[id] = true
+				}
+			}
+			rd, err := eng.GetDocuments(ctx, &protomodel.Query{CollectionName: "c", Expressions: []*protomodel.QueryExpression{{
+				FieldComparisons: []*protomodel.FieldComparison{{Field: "n", Operator: o.op, Value: structpb.NewNumberValue(t)}}}}}, 0)
+			if err != nil {
+				return err
+			}
+			got := map[string]bool{}
+			for {
+				d, err := rd.Read(ctx)
+				if errors.Is(err, document.ErrNoMoreDocuments) {
+					break
+				}
+				if err != nil {
+					rd.Close()
+					return err
+				}
+				got[d.Document.Fields[document.DefaultDocumentIDField].GetStringValue()] = true
+			}
+			rd.Close()
+			g.bb("document-query")
+			for id := range want {
+				if !got[id] {
+					g.finding("other", fmt.Sprintf("document INTEGER field: stored document with n=%v is not returned by the query n %s %v",
+						inserted[id].Fields["n"].GetNumberValue(), o.name, t))
+					break
+				}
+			}
+			for id := range got {
+				if _, has := inserted[id].Fields["n"]; !has {
+					// a document WITHOUT the field is returned by `n < t` (the engine orders NULL below every
+					// value); whether that is right is a question about search semantics (C19), not about codecs
+					g.r.Stats["blackbox/document-query-null-field-returned"]++
+					continue
+				}
+				if !want[id] {
+					g.finding("other", fmt.Sprintf("document INTEGER field: stored document with n=%v is returned by the query n %s %v",
+						inserted[id].Fields["n"].GetNumberValue(), o.name, t))
+					break
+				}
+			}
+		}
 	}
 	return nil
 }
